@@ -95,6 +95,8 @@ class LiteralToken(RegexpBaseToken):
             else:
                 real_value = int(self.value[2])
                 if self.value[7]:
+                    if int(self.value[7]) > 308:
+                        raise E2PyclParserException(f'The number {self.value[0]} is too large')
                     # TODO in theory, the degree can be calculated using the expression
                     real_value *= 10 ** int(self.value[7])
             real_value = str(real_value)
